@@ -118,7 +118,11 @@ def make_app(problem):
                                   ('wall', bx, by, 1000.0)):
                 pas.append(get_particle_array(
                     name=nm, x=x, y=y, m=np.full_like(x, dx * dx * rho),
-                    h=np.full_like(x, self.hdx * dx),
+                    # (the wall is resolved with a larger smoothing length
+                    # than the fluids: source h > destination h for the pairs
+                    # fluid <- wall)
+                    h=np.full_like(x, self.hdx * dx * (
+                        1.3 if nm == 'wall' else 1.0)),
                     rho=np.full_like(x, rho),
                     u=np.full_like(x, -8.0 if nm == 'oil' else 0.0)))
             self.scheme.setup_properties(pas)
